@@ -18,7 +18,7 @@ from core import *  # noqa
 HERE = os.path.dirname(os.path.abspath(__file__))
 from explore import bfs_histories, Mismatch  # noqa
 import canonparse  # noqa
-from model import Model, ERR  # noqa
+from chanmodel import Model, ERR  # noqa
 
 DRIVER = os.path.join(HERE, "driver.janet")
 
@@ -49,7 +49,7 @@ def decode_trace(text):
     out = []
     for workers, done, spurious, chans in v:
         comps = []
-        for w, opid, r in done:
+        for w, opid, r, _t in done:
             if r[0] == "ok" or r[0] == Kw("ok"):
                 comps.append((w, r[1]))
             else:
